@@ -449,6 +449,16 @@ char *FUNC(generate)(jwt_common_t *__cmd)
 	if (__cmd == NULL)
 		return NULL;
 
+	/* The offsets are positive here (anything else turns the claim off),
+	 * but now + offset must still fit. */
+	if (((__cmd->c.claims & JWT_CLAIM_NBF) &&
+	     (long)tm > LONG_MAX - (long)__cmd->c.nbf) ||
+	    ((__cmd->c.claims & JWT_CLAIM_EXP) &&
+	     (long)tm > LONG_MAX - (long)__cmd->c.exp)) {
+		jwt_write_error(__cmd, "Time offset out of range");
+		return NULL;
+	}
+
 	jwt = jwt_malloc(sizeof(*jwt));
 	if (jwt == NULL)
 		return NULL; // LCOV_EXCL_LINE
